@@ -91,7 +91,8 @@ def check_table(ctx: Ctx, case) -> None:
     exp = expected_notes(res, items)
     rc = case
     lines = [S.track_line(it) for it in items]
-    chart, tr = T.parse_track(ctx, res, TEMPO, lines, HEADER, rc)
+    chart, tr = T.parse_track(ctx, res, TEMPO, lines, HEADER, rc,
+                              fmt=(res * 31 + d) if (res + d + tap) % 4 == 0 else 0)
     if tr is None:
         return
     T.compare_notes(ctx, tr, exp, rc, {"ticks", "hopo"})
@@ -161,12 +162,17 @@ def _random_tracks(draw, ctx):
         lens = [sus] * 5
         if mask and draw(st.integers(0, 3)) == 0:
             lens = [draw(st.sampled_from([0, sus, thr, 1])) for _ in range(5)]
-        items += G.render_note_items(tick, mask, lens if mask else sus, tap, forced)
+        group = G.render_note_items(tick, mask, lens if mask else sus, tap, forced)
+        if mask and len(group) > 1 and draw(st.integers(0, 3)) == 0:
+            # flag lines before / between the lane lines (any line order within a lane note's tick)
+            group = list(draw(st.permutations(group)))
+        items += group
     # the rule is about ticks, not time: tempo changes in the middle of the track must not matter
     tempo = [[0, draw(st.sampled_from([120000, 60000, 250000, 1000]))]]
     if draw(st.booleans()):
         tempo.append([draw(st.integers(1, max(2, tick))), draw(st.sampled_from([30000, 480000, 120001]))])
-    return {"res": res, "items": items, "tempo": tempo}
+    return {"res": res, "items": items, "tempo": tempo,
+            "fmt": draw(st.one_of(st.just(0), st.just(0), st.integers(1, 10 ** 6)))}
 
 
 def strat_random(ctx: Ctx):
@@ -177,7 +183,7 @@ def check_random(ctx: Ctx, case) -> None:
     res, items = case["res"], case["items"]
     exp = expected_notes(res, items)
     lines = [S.track_line(it) for it in items]
-    chart, tr = T.parse_track(ctx, res, case.get("tempo", TEMPO), lines, HEADER, case)
+    chart, tr = T.parse_track(ctx, res, case.get("tempo", TEMPO), lines, HEADER, case, fmt=case.get("fmt", 0))
     if tr is None:
         return
     T.compare_notes(ctx, tr, exp, case, {"ticks", "hopo"})
